@@ -22,7 +22,7 @@ META = {
         "Non-trivial = at least one demand write with >= 2 children; distinct by content."
     ),
     "assumptions": [
-        "magnitudes in {0} u [1e-100, 1e100] so that overflow/underflow cannot occur",
+        "magnitudes in {0} u [1e-100, 1e100] so that overflow/underflow cannot occur; plus a class of denormal supply weights (multiples of 4 x 5e-324) with dyadic fitness values and integer demands 1..1000, for which all products are exact",
         "floating point comparisons use a relative tolerance of 1e-9 (observed error ~1 ulp per child)",
         "children are well-behaved pools that store the demand they are given",
     ],
@@ -55,6 +55,11 @@ def gen_child(rnd, style):
         return {"supply": 0, "utilisation": 0.0, "allocation": 0.0, "demand": 0}
     if style == "equal":
         return {"supply": 3, "utilisation": 0.5, "allocation": 0.75, "demand": 0}
+    if style == "denormal":  # weights at the very bottom of the float range
+        # multiples of 4 units x dyadic fitness: every product stays exact although denormals have few bits
+        unit = 5e-324
+        return {"supply": 4 * rnd.randint(1, 250) * unit * rnd.choice([1, 1, 2**30]), "utilisation": rnd.choice([0.25, 0.5, 0.75, 1.0]),
+                "allocation": rnd.choice([0.25, 0.5, 0.75, 1.0]), "demand": 0}
     return {
         "supply": gen_mag(rnd),
         "utilisation": gen_mag(rnd, 0.25, unit=True),
@@ -66,7 +71,9 @@ def gen_child(rnd, style):
 def gen_case(rnd, spec):
     kind = rnd.choice(["uniform", "supply", "utilisation", "allocation", "supply"])
     n = rnd.choice([0, 1, 1, 2, 2, 2, 3, 3, 4, 5, 8, 12])
-    style = rnd.choice(["random", "random", "random", "zero_weight", "equal", "single"])
+    style = rnd.choice(["random", "random", "random", "zero_weight", "equal", "single", "denormal"])
+    if style == "denormal":
+        kind = "supply"
     children = []
     for i in range(n):
         if style == "single":
@@ -78,18 +85,19 @@ def gen_case(rnd, spec):
     for _ in range(rnd.randint(1, 25)):
         k = rnd.random()
         if k < 0.4:
-            ops.append(["write", gen_mag(rnd, 0.1)])
+            # with denormal weights only integer demands: D * weight must not underflow
+            ops.append(["write", rnd.randint(1, 1000) if style == "denormal" else gen_mag(rnd, 0.1)])
         elif k < 0.6:
-            ops.append(["child", rnd.randint(0, 11), gen_child(rnd, rnd.choice(["random", "random", "zero_weight"]))])
+            ops.append(["child", rnd.randint(0, 11), gen_child(rnd, "denormal" if style == "denormal" else rnd.choice(["random", "random", "zero_weight"]))])
         elif k < 0.7:
-            ops.append(["append", gen_child(rnd, rnd.choice(["random", "zero_weight"]))])
+            ops.append(["append", gen_child(rnd, "denormal" if style == "denormal" else rnd.choice(["random", "zero_weight"]))])
         elif k < 0.8:
             ops.append(["remove", rnd.randint(0, 11)])
         elif k < 0.83:
             ops.append(["clear"])
         else:
             ops.append(["read"])
-    return {"kind": kind, "children": children, "ops": ops}
+    return {"kind": kind, "children": children, "ops": ops, "style": style}
 
 
 def close(observed, exact, scale):
@@ -98,6 +106,10 @@ def close(observed, exact, scale):
 
 
 def execute(case, result):
+    global TOL
+    TOL = Fraction(1, 10**9)
+    if case.get("style") == "denormal":
+        result.count("cases_with_denormal_weights")
     from cobald.composite.uniform import UniformComposite
     from cobald.composite.weighted import WeightedComposite
 
@@ -148,10 +160,12 @@ def execute(case, result):
             else:
                 lo, hi = min(values), max(values)
                 scale = max(hi, Fraction(1, 10**100))
-                if not (lo - TOL * scale <= Fraction(got) <= hi + TOL * scale):
+                if got != got or got in (float("inf"), float("-inf")):
+                    bad("%s is %r" % (name, got))
+                elif not (lo - TOL * scale <= Fraction(got) <= hi + TOL * scale):
                     bad("%s %r outside the children's range [%s, %s]" % (name, got, float(lo), float(hi)))
                 mean = sum((v * wi for v, wi in zip(values, w)), Fraction(0)) / total
-                if not close(got, mean, scale):
+                if got == got and got not in (float("inf"), float("-inf")) and not close(got, mean, scale):
                     bad("%s %r is not the weighted mean %s" % (name, got, float(mean)))
                 result.count("aggregates_in_range")
 
@@ -191,6 +205,9 @@ def execute(case, result):
                 if len(set(w)) > 1:
                     result.count("writes_unequal_weights")
             scale = max(Dx, Fraction(1, 10**300))
+            if any(g != g or g in (float("inf"), float("-inf")) for g in got):
+                bad("shares %r are not finite" % (got,))
+                continue
             s = sum((Fraction(g) for g in got), Fraction(0))
             if abs(s - Dx) > TOL * scale * n:
                 bad("children's demands sum to %s, written %r (shares %r)" % (float(s), D, got))
